@@ -55,7 +55,7 @@ func (f *MemFile) Chdir() error {
 		return &fs.PathError{Op: op, Path: f.name, Err: err}
 	}
 
-	_ = f.vfs.SetCurDir(f.name)
+	_ = f.vfs.SetCurDir(f.absPath)
 
 	return nil
 }
